@@ -31,6 +31,8 @@ CLAIMS = {
          "The whole-path postcondition (afterwards the parent resolves) is not mechanised; K1, K2, strconv contracts assumed. "),
  "C15": (TECH, "TrustMarshalJSON is verified to write '{', the members in keys order as name ':' value separated by ',', and '}', escaping names and values per the object's options (default escape); RedirectMarshalJSON never reports an unknown node type under the node invariant; ApplyIndent re-indents the marshalled output.",
          "Well-formedness of the encoder's output and of Indent is assumed (K10-K12); the loss of options on objects parsed by a test operation is a known finding candidate not yet covered. "),
+ "C16": (TECH, "The embedded scanner is verified as an implementation of the RFC 8259 byte-level automaton one step at a time: each of its 31 state functions against the automaton's rows (for every byte value: successor state, opcode, effect on the nesting stack, nesting limit 10000), the stack primitives, and the drivers: checkValid resets the scanner, feeds every byte of the input in order to the current state (call-site clause on the call through scanner.step), stops at the first scanError and otherwise asks eof, which feeds one space and accepts iff the top-level value is complete; Valid is checkValid == nil. On top of that the gates of the public entry points are verified: DecodePatch, Apply*, MergePatch, MergeMergePatches, CreateMergePatch and Equal reject ill-formed input before the unvalidated decoder is called.",
+         "Language equality proper - 'accepted by the implementation iff generated by the grammar' - is the meta clause checkValid/accepts-iff-wf: it follows from the verified rows and drivers by induction over the input (not mechanised) and from the rows being RFC 8259's automaton (written from the RFC, Appendix B). Compact, Indent and the reflective Unmarshal share the same state functions but their own loops are not verified (K10); Apply's first-byte dispatch and the empty-document early return are outside the verified clauses (candidates F12/F13 in DESIGN.md section K). The pool wrappers newScanner/freeScanner are assumed. "),
  "C18": (TECH, "Legacy root package: every function on the Apply path of /repo/patch.go (container primitives on map/slice values, lazy parsing, pointer walk, the six operations, the dispatch loop, DecodePatch) is verified from its SSA against one-level RFC 6902/6901 contracts with the v4 dialect: index arithmetic with the SupportNegativeIndices package setting, '-' append, member set/remove, move = remove then add of the same node, copy inserts a fresh duplicate with the same value and accounts its size against AccumulatedCopySizeLimit, failing test / absent remove or move source / out-of-range index are errors of the stated kind with no document. Pointers into struct fields (&n.doc, &n.ary) are modelled exactly (paddr encoding).",
          "Pointer-level, one container at a time (composition over the tree is the meta step M-tree). encoding/json's Unmarshal/Marshal/Compact at the used instantiations are assumed (KR contracts in contracts/root.spec). replace of an absent object member succeeds in v4 (outside the property's domain of applicable patches). "),
  "C19": (TECH, "Legacy root package merge.go: merge, mergeDocs, pruneNulls, pruneDocNulls, pruneAryNulls and doMergePatch are verified from their SSA: RFC 7396's branches are pinned by call-site clauses and closed callee lists (null member deletes only when applying, new members are pruned only when applying, existing members are merged recursively with the same mode, arrays are left untouched), ill-formed documents and patches are rejected, no node holding the text null is ever stored; lazyNode.equal treats an absent operand as unequal and leaves already-parsed nodes untouched.",
